@@ -283,6 +283,60 @@ PROPS["C14"] = dict(
             "thorough": {"generated_cases_reaching_set_choice_branch": 3000,
                          "trajectories_with_5_chance_steps": 300}})
 
+YAML_ASSUME = [
+    "documented format = docs/source/tutorials/creating_scenarios.rst; valid "
+    "documents are produced by ScenarioSynth and written with PyYAML in "
+    "block and flow style; the independent reader is yaml.safe_load plus a "
+    "regex address parser (no eval, no nasim)",
+    "held = no refuting event on the documents observed",
+]
+PROPS["C17"] = dict(
+    module="nv.props.yamlio", level="exploration",
+    shards={"quick": 8, "thorough": 16},
+    timeout={"quick": 900, "thorough": 7200},
+    rule="the nine shipped files and random valid documents (prob 1.0 and 1, "
+    "empty escalation section, no step limit, negative/zero/fractional "
+    "values, empty process lists, empty allow-lists, host deny-lists, "
+    "'none'/'None' OS, block and flow style): every field of the loaded "
+    "Scenario/Host objects is compared with an independent reading of the "
+    "same text, and the environment from nasim.load(path) is stepped under "
+    "the C01/C02 monitors with the reference model configured from the "
+    "file; non-trivial = distinct documents with a host deny-list, a "
+    "probability-1 exploit, an empty escalation section or no step limit, "
+    "and documents whose run contained steps decided by a host deny-list",
+    assumptions=YAML_ASSUME,
+    floors={"quick": {"documents_compared": 150, "cases:shipped": 9,
+                      "feature:host_denylist": 40,
+                      "feature:prob_one_exploit": 30,
+                      "feature:empty_escalation_section": 20,
+                      "feature:no_step_limit": 30,
+                      "feature:negative_value": 30,
+                      "behaviour_steps": 15000,
+                      "behaviour_steps_decided_by_host_denylist": 5},
+            "thorough": {"documents_compared": 4000,
+                         "behaviour_steps_decided_by_host_denylist": 300}})
+PROPS["C18"] = dict(
+    module="nv.props.yamlio", level="fault_enumeration",
+    shards={"quick": 8, "thorough": 16},
+    timeout={"quick": 900, "thorough": 7200},
+    rule="fault enumeration: every operator of the catalogue (one per clause "
+    "of the statement, see nv/props/yamlio.py catalogue()) is applied to "
+    "every valid base document (nine shipped + random valid documents) at "
+    "one random applicable position (thorough: up to 12 positions); the "
+    "loader must raise; non-trivial/distinct = (base, operator, position) "
+    "triples applied",
+    assumptions=YAML_ASSUME + [
+        "each operator produces a document that breaks exactly the named "
+        "rule and is dumped back to YAML text before loading; the base is "
+        "loaded first and must be accepted"],
+    floors={"quick": {"evaluations": 1500, "bases:shipped": 9,
+                      "bases:doc": 20,
+                      "op:host_value_contradicts_sensitive": 20,
+                      "op:escalation_field_missing": 10,
+                      "op:host_firewall_bad_address": 20,
+                      "op:sensitive_duplicate": 20},
+            "thorough": {"evaluations": 100000}})
+
 NOT_APPLICABLE = {}
 
 ENGINES = [
@@ -313,6 +367,12 @@ ENGINES.append(
      "kind_free_text": "cross-process differential runner: the same cases "
      "in child interpreters with different PYTHONHASHSEED, fingerprints "
      "compared"})
+ENGINES.append(
+    {"name": "yaml", "path": "nv/props/yamlio.py",
+     "serves_properties": ["C17", "C18"],
+     "kind_free_text": "random valid YAML documents + independent reader "
+     "(field and behaviour differential); fault catalogue applied to valid "
+     "bases, loader must raise"})
 
 NOTES = ("Runtime monitoring of the real code only; no compiler sanitizers or "
          "race detectors are used because nasim is single-threaded pure "
